@@ -1431,7 +1431,8 @@ var allocExceptions = map[string]string{
 }
 
 func c06Alloc(r *fw.Run, p *fw.Program) {
-	ru := r.Rule("C06.alloc", "in pkg/decode every make with a non-constant size proves the size >= 0 in the same function (a negative count from a decoder must become an error, not a makeslice panic)", 3)
+	ru := r.Rule("C06.alloc", "in pkg/decode every make with a non-constant size proves the size >= 0 in the same function (a negative count from a decoder must become an error, not a makeslice panic); the byte readers that allocate a caller's count clamp it by the input left", 5)
+	c06AllocClamp(ru, p)
 	for _, fn := range p.FqFunctions() {
 		if pkgRel(fn) != "pkg/decode" {
 			continue
@@ -1455,7 +1456,7 @@ func c06Alloc(r *fw.Run, p *fw.Program) {
 				}
 				ord++
 				key := fmt.Sprintf("%s|make|%d", fw.ShortFn(fn), ord)
-				if env.ProvedNonNeg(v, ms.Block()) {
+				if env.ProvedNonNegDeep(v, ms.Block()) {
 					ru.Ok(key, p.Rel(ms.Pos()), "size proved >= 0")
 					continue
 				}
@@ -1466,6 +1467,82 @@ func c06Alloc(r *fw.Run, p *fw.Program) {
 				ru.Fail(key, p.Rel(ms.Pos()), "make with size "+env.Poly.Of(v).String()+" not proved >= 0 in the decode API: a negative count is a runtime panic instead of a decode error")
 			}
 		})
+	}
+}
+
+// c06AllocClamp: a pkg/decode reader that allocates a byte buffer from a caller's count and reads
+// the input into it (TryBytesLen, TryBytesRange) clamps the allocation by what the input can still
+// deliver: the make size is a choice (phi) with an arm computed from TryBitsLeft/TryLen. Without it a
+// count taken from the input (caff, 32 bit; any decoder's BytesLen(int(n))) is a makeslice panic or
+// an out-of-memory abort instead of a read error.
+func c06AllocClamp(ru *fw.Rule, p *fw.Program) {
+	n := 0
+	for _, fn := range p.FqFunctions() {
+		if pkgRel(fn) != "pkg/decode" || fn.Signature.Recv() == nil || !isDecodeD(fn.Signature.Recv().Type()) {
+			continue
+		}
+		var env *fw.PolyEnv
+		fw.EachInstr(fn, func(ins ssa.Instruction) {
+			ms, ok := ins.(*ssa.MakeSlice)
+			if !ok {
+				return
+			}
+			// read into by bitio.ReadFull / ReadAtFull
+			readInto := false
+			for _, u := range *ms.Referrers() {
+				if c, ok := u.(*ssa.Call); ok {
+					if cal := c.Common().StaticCallee(); cal != nil && cal.Pkg != nil && strings.HasSuffix(cal.Pkg.Pkg.Path(), "pkg/bitio") && (cal.Name() == "ReadFull" || cal.Name() == "ReadAtFull") {
+						readInto = true
+					}
+				}
+			}
+			if !readInto {
+				return
+			}
+			// size derives from a parameter
+			fromParam := false
+			var edges []ssa.Value
+			var walk func(v ssa.Value, d int)
+			seen := map[ssa.Value]bool{}
+			walk = func(v ssa.Value, d int) {
+				v = fw.SxStripConv(v)
+				if seen[v] || d > 4 {
+					return
+				}
+				seen[v] = true
+				switch x := v.(type) {
+				case *ssa.Parameter:
+					fromParam = true
+				case *ssa.Phi:
+					for _, e := range x.Edges {
+						walk(e, d+1)
+					}
+				default:
+					edges = append(edges, v)
+				}
+			}
+			walk(ms.Len, 0)
+			if !fromParam {
+				return
+			}
+			n++
+			key := fw.ShortFn(fn) + "|clamp"
+			if env == nil {
+				env = fw.NewPolyEnv(fn)
+			}
+			for _, e := range edges {
+				for _, a := range env.Of(e).Atoms() {
+					if strings.Contains(a, "TryBitsLeft") || strings.Contains(a, "TryLen") || strings.Contains(a, "BitsLeft") {
+						ru.Ok(key, p.Rel(ms.Pos()), "allocation is clamped by "+env.Of(e).String())
+						return
+					}
+				}
+			}
+			ru.Fail(key, p.Rel(ms.Pos()), "a buffer of the caller's byte count is allocated before anything relates the count to the input that is left: a count read from the input is a makeslice panic / out-of-memory abort instead of a read error")
+		})
+	}
+	if n < 2 {
+		ru.Undecided("clamp:sites", "", fmt.Sprintf("%d allocating byte readers found in pkg/decode, expected TryBytesLen and TryBytesRange", n))
 	}
 }
 
